@@ -38,6 +38,7 @@ fn main() {
     let deadline_s = args.u64("deadline", 3600);
     let params = Params { focus: focus.clone(), seed, tier_thorough: args.has("thorough") };
     let _guard = fsx::ScratchGuard;
+    cassadilia_verif::report::install_panic_location_hook();
 
     let started = std::time::Instant::now();
     let next = AtomicU64::new(0);
@@ -63,8 +64,11 @@ fn main() {
                     let r = std::panic::catch_unwind(std::panic::AssertUnwindSafe(|| {
                         run_case(&params, case, &mut rep);
                     }));
-                    if let Err(p) = r {
-                        let msg = panic_text(&p);
+                    let at = cassadilia_verif::report::last_panic_location();
+                    if r.is_err() && cassadilia_verif::report::panic_is_in_harness(&at) {
+                        rep.inconclusive.push(format!("harness panic at {at} in case {case}"));
+                    } else if let Err(p) = r {
+                        let msg = format!("{} (at {at})", panic_text(&p));
                         // a panic that unwinds out of the store is an observation about the store
                         // only if it comes from its code; the message is kept for classification.
                         rep.violate(
